@@ -12,7 +12,7 @@ from ..gen import docs as D
 from ..gen import queries as Q
 from ..gen.filters import FilterGen
 from ..gen.render import Renderer
-from ..run import Stats, hyp_run, mix
+from ..run import Stats, hyp_run, mix, rng_for
 from ..strict import canon, short
 from . import c06
 
@@ -132,7 +132,7 @@ def t_random(seed, n):
 
     def body(x):
         doc, s, mode = x
-        rng = random.Random(s)
+        rng = rng_for(s)
         stats.case()
         if mode in ("std", "ext"):
             ext = mode == "ext"
